@@ -260,6 +260,13 @@ def cases(tier, rnd):
     out += ['\\begin{a}x\\end {a}y', '\\begin{\\x}x\\end{\\x}', '\\begin[x]{a}b\\end{x}', '\\begin{ a}x\\end{a}',
             '\\begin{a }x\\end{a}', '\\begin{}\\end{}', '\\begin{[tex]}x\\end{[tex]}y']
     # argument lists: every sequence of <= 4 groups (repeats included) after a command and after \begin{a}
+    if PROP == 'C16':
+        # blanks around the name of an environment whose name selects a reader (verbatim-like, math, list): the name is
+        # stripped on output, so both parses must classify the environment the same way (seeded change r7-C16-1)
+        for nm in ('verbatim', 'lstlisting', 'equation', 'align', 'itemize', 'a'):
+            for l, r in ((' ', ' '), (' ', ''), ('', ' '), ('\t', '')):
+                for body in ('\\foo {c}', '$ {x}', 'a_{b} [c]', '\\item a {b}', '\\x{a} [b]'):
+                    out.append('\\begin{%s%s%s}%s\\end{%s}' % (l, nm, r, body, nm))
     groups = ['{a}', '[a]', '{b}', '[b]', ' {a}', '\n[a]']
     for n in range(1, 5):
         for t in itertools.product(groups, repeat=n):
